@@ -42,6 +42,7 @@ class Case:
     answer: dict
     model: list | None      # parsed model answer of the `back` command on the real API object
     front: list | None = None   # parsed answer of the analyzer model (`front` command) on the dumped view
+    pipe: list | None = None    # parsed answer of the whole-pipeline model (`run` command: view -> files)
 
 
 def _evict():
@@ -102,17 +103,18 @@ def build(stream: str, n: int, seed: int) -> list[Case]:
             idx.append(k)
     models = vlib.run_model(lines) if lines else []
     by = dict(zip(idx, models, strict=True))
-    fronts = run_front(answers)
+    fronts, pipes = run_front(answers, [bool(j.get("nc")) for j in jobs])
     out = []
     for k, (i, p, files, job) in enumerate(cases):
         a = answers[k]
-        out.append(Case(i, p, files, job, a, by.get(k), fronts[k]))
+        out.append(Case(i, p, files, job, a, by.get(k), fronts[k], pipes[k]))
     implrun.cleanup()
     return out
 
 
-def run_front(answers: list[dict]) -> list:
-    """the analyzer model on the view dumped for each job; api_sx/view_sx are replaced by the parsed API tree"""
+def run_front(answers: list[dict], ncs: list[bool]) -> tuple[list, list]:
+    """the analyzer model (`front`) and the whole-pipeline model (`run`) on the view dumped for each job;
+    api_sx/view_sx are replaced by the parsed API tree"""
     lines, idx = [], []
     for k, a in enumerate(answers):
         v = a.pop("view_sx", None)
@@ -120,10 +122,46 @@ def run_front(answers: list[dict]) -> list:
         a["api_tree"] = vlib.parse_sx(sxs) if sxs else None
         if v:
             lines.append("(" + vlib.sx("front") + " " + v + ")")
+            lines.append("(" + vlib.sx("run") + " " + vlib.sx(ncs[k]) + " " + v + ")")
             idx.append(k)
     ms = vlib.run_model(lines) if lines else []
-    by = dict(zip(idx, ms, strict=True))
-    return [by.get(k) for k in range(len(answers))]
+    by_f = dict(zip(idx, ms[0::2], strict=True))
+    by_p = dict(zip(idx, ms[1::2], strict=True))
+    return [by_f.get(k) for k in range(len(answers))], [by_p.get(k) for k in range(len(answers))]
+
+
+def pipeline_disagreements(cases: list[Case], prop: str) -> list[dict]:
+    """the composed model (view -> API -> stub files) against the files the real tool wrote, on the property's projection"""
+    dis = []
+    for c in cases:
+        m = c.pipe
+        a = c.answer
+        if m is None or not c.job.get("view") or not c.job.get("out"):
+            continue
+        if m[0] == "bad-view":
+            dis.append({"case": c.job, "what": "the pipeline model cannot read the dumped view"})
+            continue
+        if m[0] == "err":
+            if not a.get("exc"):
+                dis.append({"case": c.job, "what": f"pipeline model raises {m[1]}, the tool completes"})
+            continue
+        if a.get("exc"):
+            dis.append({"case": c.job, "what": f"pipeline model completes, the tool raises {a['exc']}"})
+            continue
+        back = m[2]
+        if m[1] == "1" or back[0] != "ok" or back[4] == "1":
+            continue      # order-dependent choice inside the recorded finding regions
+        fm = {p: t for p, t in back[5]}
+        pi, pm = projection(impl_files(c), prop), projection(fm, prop)
+        if pi != pm:
+            if isinstance(pi, dict):
+                k = next((k for k in sorted(set(pi) | set(pm)) if pi.get(k) != pm.get(k)), None)
+                detail = {"file": k, "impl": (pi.get(k) or "<absent>")[:400], "model": (pm.get(k) or "<absent>")[:400]}
+            else:
+                si, sm = set(map(repr, pi)), set(map(repr, pm))
+                detail = {"only_impl": sorted(si - sm)[:3], "only_model": sorted(sm - si)[:3]}
+            dis.append({"case": c.job, "what": f"pipeline model (view -> files) and the tool differ on the {prop} projection", "detail": detail})
+    return dis
 
 
 def front_disagreements(cases: list[Case], prop: str) -> list[dict]:
